@@ -113,8 +113,29 @@ def mk_source(d):
     return s
 
 
-def mk_catalog(desc):
-    return [mk_source(d) for d in desc]
+FORMS = ('list', 'tuple', 'generator', 'ndarray', 'iter', 'filter')
+
+
+def mk_catalog(desc, form='list'):
+    """the catalogue handed to the writers; classify_catalog documents `catalog : iterable`, so one-shot iterables are valid input"""
+    objs = [mk_source(d) for d in desc]
+    if form == 'tuple':
+        return tuple(objs)
+    if form == 'generator':
+        return (o for o in objs)
+    if form == 'ndarray':
+        a = np.empty(len(objs), dtype=object)
+        a[:] = objs
+        return a
+    if form == 'iter':
+        return iter(objs)
+    if form == 'filter':
+        return filter(lambda o: True, objs)
+    return objs
+
+
+def form_for(desc, fmt):
+    return FORMS[(len(desc) + sum(d['k'] for d in desc) + len(fmt)) % len(FORMS)]
 
 
 HEX = '0123456789abcdef'
@@ -335,7 +356,7 @@ def roundtrip(work, desc, fmt, prefix=None, meta=None, base='rt'):
     cat, _ = _mods()
     problems = []
     _clean(work, base)
-    catalog = mk_catalog(desc)
+    catalog = mk_catalog(desc, form_for(desc, fmt))
     fn = os.path.join(work, f'{base}.{fmt}')
     with warnings.catch_warnings():
         warnings.simplefilter('ignore')
@@ -411,7 +432,7 @@ def roundtrip_db(work, desc, meta=None, base='rtdb'):
     cat, _ = _mods()
     _clean(work, base)
     fn = os.path.join(work, base + '.db')
-    catalog = mk_catalog(desc)
+    catalog = mk_catalog(desc, form_for(desc, 'db'))
     problems = []
     with warnings.catch_warnings():
         warnings.simplefilter('ignore')
